@@ -79,3 +79,6 @@ M("c01-F14-revert-never-started-handle", "C01", A, "TaskGroup._spawn.task_done",
   "            if not handle._finished_event.is_set():\n                # The task was cancelled before it got to run its first step, so\n                # TaskHandle._run_coro() never got the chance to record the outcome\n                handle._exception = exc\n                handle._finished_event.set()\n                coro.close()\n\n", "", ["R01-i"])
 M("c01-never-started-handle-no-outcome", "C01", A, "TaskGroup._spawn.task_done", "                handle._exception = exc\n                handle._finished_event.set()", "                handle._finished_event.set()", ["R01-i"])
 M("c01-done-callback-overwrites-outcome", "C01", A, "TaskGroup._spawn.task_done", "            if not handle._finished_event.is_set():\n                # The task was cancelled", "            if True:\n                # The task was cancelled", ["R01-i"])
+
+# from seeded change C01/e (round 3)
+M("c01-delivery-done-on-non-future", "C01", A, "CancelScope._deliver_cancellation", "if not isinstance(waiter, asyncio.Future) or not waiter.done():", "if waiter is None or not waiter.done():", ["R01-j"])
